@@ -278,7 +278,7 @@ func ruleRearmGated(c *Ctx, r *R) {
 func ruleNilableTimer(c *Ctx, r *R) {
 	isTimerField := func(addr ssa.Value) bool {
 		fa, ok := addr.(*ssa.FieldAddr)
-		return ok && isNamedType(fa.X.Type(), "xtime", "JitterTicker") && isNamedTypeDeep(fa.Type().(*types.Pointer).Elem(), "time", "Timer")
+		return ok && isTickerOwned(fa.X.Type()) && isNamedTypeDeep(fa.Type().(*types.Pointer).Elem(), "time", "Timer")
 	}
 	// is the field ever set to nil?
 	nilled := false
@@ -286,6 +286,18 @@ func ruleNilableTimer(c *Ctx, r *R) {
 		instrs(fn, func(b *ssa.BasicBlock, i int, in ssa.Instruction) {
 			if st, ok := in.(*ssa.Store); ok && isTimerField(st.Addr) && isNilConst(st.Val) {
 				nilled = true
+			}
+			// the struct that holds the timer replaced as a whole (t.armed = armedTimer{gen: ...}): the timer may be nil after
+			if st, ok := in.(*ssa.Store); ok {
+				if fa, isFA := st.Addr.(*ssa.FieldAddr); isFA && isNamedType(fa.X.Type(), "xtime", "JitterTicker") {
+					if inner, isSt := derefType(fa.Type()).Underlying().(*types.Struct); isSt && isTickerOwned(derefType(fa.Type())) {
+						for j := 0; j < inner.NumFields(); j++ {
+							if isNamedTypeDeep(inner.Field(j).Type(), "time", "Timer") {
+								nilled = true
+							}
+						}
+					}
+				}
 			}
 		})
 	}
@@ -1308,9 +1320,25 @@ func ruleGenWidth(fields ...[3]string) func(c *Ctx, r *R) {
 				continue
 			}
 			found := false
+			// (the counter may have moved, with its neighbours, into a struct of the package held by value)
+			type fieldAt struct {
+				owner types.Type
+				sf    *types.Var
+			}
+			var all []fieldAt
 			for i := 0; i < st.NumFields(); i++ {
-				sf := st.Field(i)
-				if canonField(tn.Type(), sf.Name()) != fld {
+				all = append(all, fieldAt{tn.Type(), st.Field(i)})
+				if nt2, ok := st.Field(i).Type().(*types.Named); ok && nt2.Obj().Pkg() == tn.Pkg() {
+					if inner, ok := nt2.Underlying().(*types.Struct); ok {
+						for j := 0; j < inner.NumFields(); j++ {
+							all = append(all, fieldAt{nt2, inner.Field(j)})
+						}
+					}
+				}
+			}
+			for _, fa := range all {
+				sf := fa.sf
+				if canonField(fa.owner, sf.Name()) != fld {
 					continue
 				}
 				found = true
